@@ -243,3 +243,24 @@ Proof.
   unfold ParamTypeBlob_size, ParamTypeBlob__type_at, ArrayTypeBlob__type_at. cbn [fst snd Z.of_N].
   repeat split; lia.
 Qed.
+
+(* ---- what the API says about the dimensions of a C array, through the blob the compiler writes (Model/C06K.blob_carray) *)
+From GIV.Model Require Import C06K.
+Definition api_dims (fx : bool) (a : carray) : Z * Z :=
+  let '(_, _, hl, hs, d) := blob_carray fx a in
+  (acc_g_type_info_get_array_length hl (Z.of_N d), acc_g_type_info_get_array_fixed_size hs (Z.of_N d)).
+
+Lemma array_dimensions a :
+  api_dims true a = ((if ka_has_len a then Z.of_N (ka_len a) else -1),
+                     (if ka_has_size a && negb (ka_has_len a) then Z.of_N (ka_size a) else -1)).
+Proof.
+  unfold api_dims, blob_carray, acc_g_type_info_get_array_length, acc_g_type_info_get_array_fixed_size.
+  destruct (ka_has_len a), (ka_has_size a); reflexivity.
+Qed.
+
+Lemma array_dimensions_refuted_before_fix : exists a,
+  ka_has_len a = true /\ ka_has_size a = true /\ snd (api_dims false a) = Z.of_N (ka_len a) /\ ka_len a <> ka_size a.
+Proof.
+  exists {| ka_elem := []; ka_has_len := true; ka_len := 1; ka_has_size := true; ka_size := 4; ka_zero := false; ka_ptr := true |}.
+  repeat split; discriminate.
+Qed.
